@@ -254,6 +254,7 @@ def jobs(tier):
           Job("colr0_layers[reused]", C06.job_colr0, which="colr0"),
           Job("glyf_components[reused]", C06.job_colr0, which="glyf"),
           Job("draw_glyph_extents", job_extents),
+          Job("glyphs independent of build order", C06.job_independent),
           Job("colr_ufo[v0 extents]", job_colr0_extents)]
     from harness import C16
 
